@@ -889,7 +889,7 @@ def _check_index_array(idx, n):
     e = idx._elem(*vs)
     ok = forall(vs, z3.Implies(rng, z3.And(e >= -nt, e < nt)))
     c = idx.meta.get("values_in")
-    if c is not None and c[1] is n:
+    if c is not None and (c[1] is n or z3.simplify(dim_term(c[1])).eq(z3.simplify(nt))):
         return
     if not Ctx.cur.branch(ok):
         raise IndexError("index out of bounds")
@@ -1018,6 +1018,19 @@ class SRec(SArrBase):
 
     def copy(self):
         return SRec(self.n, {k: v.copy() for k, v in self.fields.items()})
+
+    def view(self, dtype=None, *a, **k):
+        """reinterpretation of the same bytes with another record dtype: all fields are float64, so the k-th new field is
+        the k-th old field whatever it is called (numpy raises if the record sizes differ and the byte length does not divide)"""
+        names = getattr(dtype, "names", None)
+        if not names:
+            raise Unsupported("view of a symbolic chunk as a non-record dtype")
+        import numpy as np
+        if any(np.dtype(dtype.fields[n][0]).name != "float64" for n in names) or any(v.dtype_name not in (None, "float64") for v in self.fields.values()):
+            raise Unsupported("view of a chunk with fields that are not float64")
+        if len(names) != len(self.fields):
+            raise Unsupported("view of a symbolic chunk with a different number of fields (length changes / ValueError)")
+        return SRec(self.n, {new: v for new, v in zip(names, self.fields.values())})
 
     def tofile(self, f, *a, **k):
         from . import fsmodel
